@@ -19,8 +19,10 @@ import (
 	"net"
 	"sort"
 	"strconv"
+	"runtime"
 	"strings"
 	"sync"
+	"sync/atomic"
 	"time"
 
 	"github.com/valyala/fasthttp/fasthttputil"
@@ -57,6 +59,8 @@ type desc struct {
 	ND   int    `json:"nd,omitempty"`
 	NA   int    `json:"na,omitempty"`
 	MidC int    `json:"midc,omitempty"` // lnstress: closer fires after this many accepts
+	// closerace
+	Trials int `json:"trials,omitempty"`
 }
 
 const (
@@ -1141,6 +1145,86 @@ func runLnFull(d desc) hlib.Case {
 	}
 }
 
+// runCloseRace: a reader goroutine is released into Read by a spin barrier while the controller spins a pseudo-random
+// number of iterations and then does Write(payload); Close().  The write completed before Close was called, so the
+// reader must get the payload before its first EOF whichever way it interleaves with the reader's two selects
+// (non-blocking poll of rCh, then the blocking select on rCh / deadline / stopCh).
+func runCloseRace(d desc) hlib.Case {
+	if runtime.GOMAXPROCS(0) < 2 {
+		runtime.GOMAXPROCS(2)
+	}
+	payload := []byte("x")
+	seed := uint32(d.Seed) | 1
+	var bad, good []string
+	for t := 1; t <= d.Trials; t++ {
+		pc := fasthttputil.NewPipeConns()
+		w, r := pc.Conn1(), pc.Conn2()
+		if t%2 == 0 {
+			w, r = pc.Conn2(), pc.Conn1()
+		}
+		var start atomic.Int32
+		type rr struct {
+			d   []byte
+			err error
+		}
+		done := make(chan rr, 1)
+		go func() {
+			buf := make([]byte, 8)
+			start.Add(1)
+			for start.Load() != 2 {
+			}
+			n, err := r.Read(buf)
+			done <- rr{buf[:n], err}
+		}()
+		for start.Load() != 1 {
+			runtime.Gosched()
+		}
+		seed = seed*1664525 + 1013904223
+		spin := int(seed>>16) % 300
+		start.Store(2)
+		for i := 0; i < spin; i++ {
+			_ = start.Load()
+		}
+		w.Write(payload)
+		w.Close()
+		var first rr
+		select {
+		case first = <-done:
+		case <-time.After(longWait):
+			bad = append(bad, fmt.Sprintf("(%d, %d, [(8, ObBlocked)])", t, spin))
+			continue
+		}
+		rs := []string{fmt.Sprintf("(8, %s)", obsR(first.d, first.err))}
+		// read on until EOF (at most 3 more): what is still queued behind an early EOF shows up here
+		sawEOF := first.err == io.EOF
+		for k := 0; k < 3; k++ {
+			buf := make([]byte, 8)
+			n, err := r.Read(buf)
+			rs = append(rs, fmt.Sprintf("(8, %s)", obsR(buf[:n], err)))
+			if err == io.EOF && sawEOF {
+				break
+			}
+			if err == io.EOF {
+				sawEOF = true
+				break
+			}
+		}
+		ok := first.err == nil && string(first.d) == string(payload)
+		rec := fmt.Sprintf("(%d, %d, %s)", t, spin, hlib.List(rs))
+		if !ok && len(bad) < 5 {
+			bad = append(bad, rec)
+		} else if ok && len(good) < 3 {
+			good = append(good, rec)
+		}
+	}
+	return hlib.Case{
+		Coq:  fmt.Sprintf("CCloseRace %d %s %s", d.Trials, enc(payload), hlib.List(append(bad, good...))),
+		Sig:  fmt.Sprintf("closerace:%d:%v", d.Trials/1000, len(bad) > 0),
+		Kind: "closerace",
+		Size: d.Trials,
+	}
+}
+
 func runCaps() hlib.Case {
 	pc := fasthttputil.NewPipeConns()
 	_, c1 := fasthttputil.VerifPipeSnapshot(pc)
@@ -1164,6 +1248,8 @@ func run(d desc) hlib.Case {
 		return runLnStress(d)
 	case "lnfull":
 		return runLnFull(d)
+	case "closerace":
+		return runCloseRace(d)
 	case "caps":
 		return runCaps()
 	}
@@ -1368,8 +1454,10 @@ func gen(r *rand.Rand, i int) desc {
 		return genPipe(r)
 	case x < 66:
 		return desc{Kind: "pstress", Seed: r.Int63n(1 << 40), NW: 5 + r.Intn(40), WriterCloses: r.Intn(3) != 0, CloseAfter: r.Intn(12)}
-	case x < 96:
+	case x < 95:
 		return genLn(r)
+	case x < 96:
+		return desc{Kind: "closerace", Trials: 300 + r.Intn(500), Seed: r.Int63n(1 << 30)}
 	default:
 		return desc{Kind: "lnstress", ND: 1 + r.Intn(24), NA: 1 + r.Intn(4), MidC: r.Intn(20)}
 	}
@@ -1421,6 +1509,8 @@ func corpus() []desc {
 		{Kind: "pstress", Seed: 8, NW: 40, WriterCloses: false, CloseAfter: 5},
 		{Kind: "lnstress", ND: 16, NA: 3, MidC: 8},
 		// the accept queue is full: extra Dials park in their send and are released by Close / by one Accept
+		// reader inside Read vs peer Write("x");Close(): 3000 trials with a pseudo-random spin
+		{Kind: "closerace", Trials: 3000, Seed: 1},
 		{Kind: "lnfull", ND: 3, NA: 0},
 		{Kind: "lnfull", ND: 2, NA: 1},
 		// WriteString, SetDeadline (both directions of an end at once), PipeConns.Close
